@@ -13,7 +13,10 @@ Three layers.
     The theorems of part 1 are decided over THAT table, so a change of the Python changes what they say:
 
     * `no_global_writes`, `no_param_writes`, `no_alias_writes`  — no row is rooted at a module-level/imported
-      name, at a parameter, or at a local alias of either;
+      name, at a parameter, or at a local alias of either; `global` also covers every other kind of persistent
+      state the analysis knows: closure cells of an enclosing function (`closure:…`), default-argument objects
+      (`default:…`), class objects (`class-of:…`), function/class attributes, and decorators
+      (`decorator:…`, `no_decorator_rows`) — e.g. a memoising wrapper around `alpha_coeff`;
     * `self_writes_only_in_init` — rows rooted at `self` occur only in functions whose name ends in `.__init__`;
     * `roots_fresh_or_self`, `all_rows_harmless`, `all_functions_effect_free` — every row is a store into an object created by the call
       itself (or initialises the object under construction);
@@ -69,6 +72,11 @@ theorem no_global_writes : ∀ r ∈ effects, ∀ g, r.root ≠ .global g := by
   have := h r hr
   rw [hg] at this
   exact Bool.noConfusion this
+
+/-- no function, method or class of the six modules is wrapped by a decorator other than
+`staticmethod`/`classmethod`/`property` (a caching decorator is hidden state; such rows have root
+`global "decorator:…"`, so this also follows from `no_global_writes`) -/
+theorem no_decorator_rows : ∀ r ∈ effects, r.kind ≠ "decorator" := by decide +kernel
 
 /-- no write is rooted at a parameter (a caller-owned list, array or object) -/
 theorem no_param_writes : ∀ r ∈ effects, ∀ k, r.root ≠ .param k := by
